@@ -162,7 +162,18 @@ func TestVerifC16Wire(t *testing.T) {
 	defer ts.Close()
 	httpClient := client.New(5 * time.Second)
 	ctx := context.Background()
-	services := []string{"alpha", "beta", "empty", "unknown"}
+	services := []string{"alpha", "beta", "empty", "unknown", "big"}
+	// wave 9: a list far longer than any plausible page size (a fresh client / a client starting over after a seed change asks
+	// for everything after 0): the wrapper must hand on EVERY entry up to the timestamp it reports
+	big := &vwList{seed: "seed-big"}
+	bigRaw := vwPresentation(key, "did:example:w9", "wirebig").Raw()
+	for k := 0; k < 300+rng.Intn(120); k++ {
+		big.lastTs++
+		if rng.Intn(25) != 0 { // timestamps of replaced entries are gone
+			big.entries = append(big.entries, vwEntry{big.lastTs, bigRaw})
+		}
+	}
+	srv.lists["big"] = big
 	emit := func(m map[string]interface{}) {
 		b, _ := json.Marshal(m)
 		out.Write(b)
@@ -241,6 +252,9 @@ func TestVerifC16Wire(t *testing.T) {
 			if l := srv.lists[svc]; l != nil && l.lastTs > 0 && rng.Intn(4) != 0 {
 				asked = rng.Intn(l.lastTs + 2)
 			}
+			if svc == "big" && rng.Intn(3) != 0 {
+				asked = rng.Intn(40) // a fresh client, or one starting over: more than 250 entries are due
+			}
 			entries, sd, tsGot, err := httpClient.Get(ctx, url, asked)
 			es := ""
 			got := ""
@@ -249,7 +263,20 @@ func TestVerifC16Wire(t *testing.T) {
 			} else {
 				got = vwDigest(entries, sd, tsGot)
 			}
+			// no gap: every entry of the scripted list with asked < timestamp <= the timestamp the client was told is in the answer
+			missing, listed := 0, 0
+			if l := srv.lists[svc]; l != nil && err == nil {
+				for _, e := range l.entries {
+					if e.ts > asked && e.ts <= tsGot {
+						listed++
+						if _, ok := entries[strconv.Itoa(e.ts)]; !ok {
+							missing++
+						}
+					}
+				}
+			}
 			emit(map[string]interface{}{"op": "get", "service": svc, "asked": asked, "saw_service": srv.sawSvc, "saw_after": srv.sawAfter,
+				"missing": missing, "due": listed, "returned": len(entries),
 				"sent": srv.sent, "got": got, "scripted_failure": fail, "kind": kind, "known": srv.lists[svc] != nil, "err": es})
 		}
 	}
